@@ -61,7 +61,9 @@ PROPS = {
         'modules': ['OtterVerif.Props.C11', 'OtterVerif.Props.C10'],
         'engines': [seq(['load', 'deferred'], 480, 12000,
                         # (an entry whose deadlines are wrong after a refresh is a C11 matter too: "a failed reload leaves it and its expiry untouched")
-                        lambda f: f['class'] in ('C11', 'entry') or (f['op'] in ('end', 'call', 'ret') and f['class'] in ('result', 'events')))],
+                        lambda f: f['class'] in ('C11', 'entry') or (f['op'] in ('end', 'call', 'ret') and f['class'] in ('result', 'events'))),
+                    # asynchronous executor, real goroutines: readers keep getting the old value while the reload is in flight, the swap happens once or not at all
+                    {'kind': 'unit', 'name': 'concrefresh', 'hcmd': 'conc-refresh', 'dcmd': 'concrefresh', 'quick': 60, 'thorough': 3000, 'chunk': 10, 'args': []}],
     },
     'C12': {
         'modules': ['OtterVerif.Props.C12'],
@@ -205,7 +207,10 @@ PROPS['C15'] = {
 }
 PROPS['C08'] = {
     'modules': ['OtterVerif.Props.C08'],
-    'engines': [conc('concflight', 'conc-flight', 96, 4000, 8), seq(['load'], 200, 8000, lambda f: f['class'] in ('C08', 'C10') or f['op'] in ('hang', 'call', 'ret', 'end'))],
+    'engines': [conc('concflight', 'conc-flight', 96, 4000, 8),
+                {'kind': 'unit', 'name': 'concrefresh', 'hcmd': 'conc-refresh', 'dcmd': 'concrefresh', 'quick': 40, 'thorough': 2000, 'chunk': 10, 'args': [],
+                 'accept': lambda f: 'C08' in f['msg']},
+                seq(['load'], 200, 8000, lambda f: f['class'] in ('C08', 'C10') or f['op'] in ('hang', 'call', 'ret', 'end'))],
     'rule': 'CONC-flight: rounds of 2-9 concurrent Get/BulkGet callers over 1-3 absent keys behind loaders blocked on a gate, outcomes value/error/not-found/panic: loader executions per key never overlap, one execution per successful round, '
             'callers receive the joined load\'s outcome, no hang, no in-flight record at quiescence. SEQ load profile with a watchdog for operations that never return. distinct = distinct transcripts with >= 10 lines',
     'trusted': CONC_TRUST + SEQ_TRUST[1:],
